@@ -469,7 +469,7 @@ class Lexer:
                         if toks[2][1] != "Eof":
                             self.table[c0 + c0] = toks[2][1]
                         n_op += 1
-        chk.floor("C09.floor/lexer-symbols", n_single + n_op, 24, "lexer symbol combinator calls")
+        chk.floor("C09.floor/lexer-symbols", n_single + n_op, 20, "lexer symbol combinator calls")
         # maximal munch encoded by the arm order of symbol_op_or_op_equals: 2-char arms before the 1-char arm
         clos = f.closures_of(opeq["path"])
         ok = False
